@@ -62,10 +62,14 @@ _simn = re.compile(r"The number of states generated: (\d+)")
 _cov = re.compile(r"^<(\w+) line \d+, col \d+ to line \d+, col \d+ of module (\w+)>: (\d+):(\d+)", re.M)
 
 
+TSCALE = 1.5       # every TLC timeout is multiplied by this (thorough tier: 4 - the machine may be shared with other checks)
+
+
 def tlc(module, cfg=None, workers=None, timeout=900, env=None, simulate=None, depth=None,
         coverage=False, heap=None, extra=(), deadlock=None, tag=None):
     """Run TLC on spec/<module>.tla with spec/<cfg>.  Returns TlcResult."""
     res = TlcResult()
+    timeout = int(timeout * TSCALE)
     md = tempfile.mkdtemp(prefix="tlc-%s-" % (tag or module), dir=scratch())
     cfgp = os.path.join(SPEC, cfg or (module + ".cfg"))
     cmd = ["java"]
@@ -251,9 +255,11 @@ class Check:
     """One run of one property check: collects coverage, decides exit status, writes evidence."""
 
     def __init__(self, pid, level, tier):
+        global TSCALE
         self.pid = pid
         self.level = level
         self.tier = tier
+        TSCALE = 4 if tier == "thorough" else 1.5
         self.t0 = time.time()
         self.cov = {"samples": []}
         self.assumptions = []
